@@ -6,7 +6,7 @@ CONSTANTS
   NShards = 1
 INVARIANT AllEquivalentOrDeviation
 INVARIANT TruthUnchanged
-INVARIANT AroundUnchanged
+INVARIANT AroundUnchangedOrDeviation
 PROPERTY SecondRunNoopOrDeviation
 INVARIANT Dump
 CHECK_DEADLOCK FALSE
